@@ -11,7 +11,7 @@
 From Verif Require Import Model.Base Model.Ops Model.Disasm Model.Blocks Model.Sym Model.SymTree
   Model.Annot Spec.SmtBv Model.Z3Tr Model.Cfg Model.Pipeline
   Proofs.DisasmProofs Proofs.BlocksProofs Proofs.AnnotProofs Proofs.AnnotTotalProofs
-  Proofs.CfgProofs Proofs.PipelineProofs.
+  Proofs.CfgProofs Proofs.PipelineProofs Props.C15Deep.
 From Coq Require Import Lia ZifyNat ZifyN.
 Open Scope N_scope.
 
@@ -66,6 +66,14 @@ Theorem C15_translation_total : forall t n, arity_tree t = true ->
 Proof. intros t n Ha. apply tr_encoded. eauto. Qed.
 Print Assumptions C15_translation_total.
 
+(* KNOWN FINDING class=deep-block (proved in Props/C15Deep.v by evaluation of the model): the
+   bound on the block length is needed -- 10923 consecutive LOG4 make the annotator panic *)
+Theorem C15_block_bound_needed : exists code,
+  Forall (fun b => b < 256) code /\ N.of_nat (length code) <= 24576 /\
+  forall solver, pipeline solver code = Panic "attempt to add with overflow".
+Proof. exact C15_deep_block_refuted. Qed.
+Print Assumptions C15_block_bound_needed.
+
 (* non-vacuity: mstore8, log2, signextend feeding a jump target, an undefined byte, tload, a
    truncated push -- three blocks, the pipeline completes *)
 Example C15_example :
@@ -75,7 +83,7 @@ Example C15_example :
   length (blocks_of code) = 3%nat /\
   exists g, pipeline (fun _ => false) code = Ok g /\ length (g_blocks g) = 3%nat.
 Proof.
-  cbv zeta. split; [repeat constructor|]. split; [vm_compute; repeat constructor|].
+  cbv zeta. split; [repeat constructor|]. split; [apply Nat.leb_le; vm_compute; reflexivity|].
   split; [vm_compute; reflexivity|]. eexists. split; vm_compute; reflexivity.
 Qed.
 
@@ -94,3 +102,8 @@ Check C15_annotate_total : forall off ops,
 Check C15_cfg_total : forall solver blocks,
   NoDup (map ab_off blocks) -> Forall exit_translates blocks ->
   exists g g', cfg_new blocks = Ok g /\ refine solver g = Ok g'.
+Check C15_translation_total : forall t n, arity_tree t = true ->
+  exists r, tr_sexpr_from n (encode_tree t) = Ok r.
+Check C15_block_bound_needed : exists code,
+  Forall (fun b => b < 256) code /\ N.of_nat (length code) <= 24576 /\
+  forall solver, pipeline solver code = Panic "attempt to add with overflow".
